@@ -119,7 +119,7 @@ class Emitter:
             inner = "None" if x[1] is None else self.e(x[1])
             if self.traced:
                 return f"T.recv(_A, (yield T.yld(_A, {inner})))"
-            return f"(yield {inner})"
+            return "(yield)" if x[1] is None else f"(yield {inner})"
         raise ValueError(f"bad expr {x!r}")
 
     # -- targets ------------------------------------------------------------
@@ -529,6 +529,7 @@ class _NullTracer:
 T = _NullTracer()
 G0 = 7
 G1 = 8
+GN = None  # a global that is defined, and bound to None
 NOTFN = len  # a name that resolves to something ptera cannot instrument
 
 
